@@ -204,6 +204,26 @@ def gen_C01(tier, rng):
                     reg = c.r("conv %s %d" % (tgt, reg)); c.q("obs %d" % reg)
             dist["wide_sparse_%d" % nv] += 1
             cases.append(c.done("sparse%d/%d" % (nv, rep), True))
+    # one And / Or node with many operands (17-40 literals over as many variables): expression <-> diagram only (a table
+    # would have 2^n rows); observed by evaluation at assignments that single out each operand, and by the weight
+    for width in ([17, 20, 33, 40] if tier == "quick" else [17, 20, 31, 32, 33, 40, 48, 64, 65]):
+        for cj in (True, False):
+            vs = ["y%02d" % i for i in range(width)]
+            pol = [rng.random() < 0.7 for _ in vs]
+            lits_ = [gen.L(x) if p_ else gen.Nn(gen.L(x)) for x, p_ in zip(vs, pol)]
+            e = gen.A(lits_) if cj else gen.O(lits_)
+            c = Case("c01_%d" % n); n += 1
+            r0 = c.r("expr " + pe(e)); r1 = c.r("conv B %d" % r0); r2 = c.r("conv E %d" % r1); r3 = c.r("conv B %d" % r2)
+            sat = [(x, p_) for x, p_ in zip(vs, pol)]                # satisfies every literal
+            vals = [sat, [(x, not b) for x, b in sat]]
+            for i in list(range(width - 4, width)) + rng.sample(range(width), 4):
+                vals.append([(x, (b if j != i else not b)) for j, (x, b) in enumerate(sat)])          # one literal flipped
+                vals.append([(x, ((not b) if j != i else b)) for j, (x, b) in enumerate(sat)])        # one literal alone
+            for v in vals:
+                for r in (r0, r1, r2, r3): c.q("eval %d 0 %s" % (r, val_tokens(v)))
+            c.q("weight %d %d" % (r1, 1 if cj else (1 << width) - 1)); c.q("weight %d %d" % (r3, 1 if cj else (1 << width) - 1))
+            dist["nary_width_%d" % width] += 1
+            cases.append(c.done("nary%d/%d" % (width, cj), True))
     for _ in range(120 if tier == "quick" else 1200):
         names = gen.NAMES[: rng.randint(2, 7)]
         e = gen.rand_tree(rng, rng.randint(2, 6), names)
@@ -216,7 +236,7 @@ def gen_C01(tier, rng):
         dist["random_chain"] += 1
         cases.append(c.done(pe(e), True))
     return {"cases": cases, "exhaustive": True, "dist": dict(dist),
-            "rule": "every truth function of <= 3 variables as an expression (DNF/CNF/Shannon shapes; quick: one shape per 3-variable function) pushed through EVERY conversion path of length <= %d (2+4+..+2^k paths), full observation after each step; parity / majority / xor-rich functions of 5-7 (9) variables through the diagram paths (large diagrams and normal forms); sparse asymmetric DNF/CNF of 8-10 (12) variables through the table paths; random trees through random chains of 3-10 conversions; non-trivial = non-constant function; distinct = (function, shape)" % depth}
+            "rule": "every truth function of <= 3 variables as an expression (DNF/CNF/Shannon shapes; quick: one shape per 3-variable function) pushed through EVERY conversion path of length <= %d (2+4+..+2^k paths), full observation after each step; parity / majority / xor-rich functions of 5-7 (9) variables through the diagram paths (large diagrams and normal forms); sparse asymmetric DNF/CNF of 8-10 (12) variables through the table paths; single And/Or nodes of 17-40 (65) operands through expression <-> diagram (evaluation at assignments singling out each operand, weight); random trees through random chains of 3-10 conversions; non-trivial = non-constant function; distinct = (function, shape)" % depth}
 
 
 # ------------------------------------------------------------------ C03 / C04
@@ -1342,6 +1362,21 @@ def gen_C19(tier, rng):
             for r in py_reps(c, e):
                 c.q("obs %d" % r); c.q("enum %d" % r)
             dist["wide"] += 1
+            cases.append(c.done(c.id, True))
+    # one n-ary node of many operands through mk_and_n_ary / mk_or_n_ary and on to a diagram
+    for width in (17, 33, 60):
+        for cj in ("and", "or"):
+            c = Case("c19_n%d%s" % (width, cj))
+            vs = ["y%02d" % i for i in range(width)]
+            regs_ = [c.r("mkliteral E %s %d" % (hexname(x), 1)) for x in vs]
+            k = c.r("nary %s %d %s" % (cj, width, " ".join(map(str, regs_)))); c.q("show %d" % k)
+            b = c.r("conv B %d" % k)
+            for i in (0, width - 1, width // 2):
+                v = [(x, (j == i) if cj == "or" else (j != i)) for j, x in enumerate(vs)]
+                for r in (k, b):
+                    for d in ("0", "1", "-"): c.q("eval %d %s %s" % (r, d, val_tokens(v)))
+            c.q("weight %d %d" % (b, 1 if cj == "and" else (1 << width) - 1))
+            dist["wide_nary"] += 1
             cases.append(c.done(c.id, True))
     # parsing through the constructor, exception kinds
     strings = ["a & b", "a | !b & c", "(a", "a &", "", "a b", "{x y} | t", "a ∧ ¬b", "NOT a", "true", "F", "a & & b", "}", "((a))", "v", "a v b"]
